@@ -42,6 +42,12 @@ pub fn run_one(cfg: &Cfg, rng_seed: u64) -> (sim::RunResult, single::Findings, N
         }
     }
     t += 600;
+    // transaction ids far beyond the statement's 32 bytes: nothing longer than a datagram may leave the node
+    for (i, tl) in [1000usize, 1200, 1300, 1390].iter().enumerate() {
+        let tid = hex(&vec![b'z'; *tl]);
+        b.sc.actions.push((When::At(t + 400 + 10 * i as u64), Action::PeerCommand { peer: single::client_addr(askers[0]), cmd: format!("gp 1 both tid={tid}") }));
+        b.sc.actions.push((When::At(t + 405 + 10 * i as u64), Action::PeerCommand { peer: single::client_addr(askers[0]), cmd: format!("fn both tid={tid}") }));
+    }
     // other reply kinds with the longest tid
     let tid32 = hex(&[b'y'; 32]);
     for (i, cmd) in [format!("fn both tid={tid32}"), format!("ping tid={tid32}"), format!("ann 1 7 random tid={tid32}"), format!("ann 9 7 valid tid={tid32}")].iter().enumerate() {
